@@ -17,6 +17,7 @@ import (
 	"time"
 
 	"github.com/rs/zerolog"
+	"github.com/rs/zerolog/log"
 )
 
 var (
@@ -45,7 +46,8 @@ func TestMain(m *testing.M) {
 	if fastg.Goid != nil && os.Getenv("VH_SLOWGOID") == "" {
 		vrt.GoidFunc = fastg.Goid
 	}
-	zerolog.SetGlobalLevel(zerolog.Disabled)
+	// silence the application log only: the per-process log files are zerolog loggers too
+	log.Logger = zerolog.Nop()
 	devNull, _ = os.OpenFile(os.DevNull, os.O_WRONLY, 0)
 	os.Exit(m.Run())
 }
